@@ -73,7 +73,7 @@ def main():
         "setup_cmd": "cd /verif/sim && CARGO_NET_OFFLINE=true cargo build --release --offline && cd /verif/sim-nohooks && CARGO_NET_OFFLINE=true cargo build --release --offline && cd /verif && ./sim/target/release/bpsim selftest all",
         "hooks": {
             "guard": "cargo feature verif-hooks (off by default)",
-            "enable": "the harness crate /verif/sim depends on /repo by path with features=[\"verif-hooks\"]; every ./check rebuilds it from /repo's working tree. C08 additionally rebuilds /verif/sim-nohooks, which links /repo with the guard OFF and repeats the list-length grid through the public API",
+            "enable": "the harness crate /verif/sim has a default feature `hooks` = [\"ark-bulletproofs/verif-hooks\"] and depends on /repo by path; every ./check rebuilds it from /repo's working tree (main leg, guard ON). Every ./check also rebuilds /verif/sim-nohooks, which compiles the same simulator sources WITHOUT that feature (binary bpsim-off: /repo linked with the guard OFF, public API only) and runs a slice of the same check first (guard-off leg; all checks except C10, which needs the guarded IPP re-export), plus bpsim-nohooks, the C08 list-length grid",
             "baseline_off_cmd": "cd /repo && cargo test --workspace --no-fail-fast --offline",
             "source_commits": HOOK_COMMITS,
             "add_only": True,
